@@ -14,7 +14,7 @@ from ..engine import HOLDS, UNDECIDED, VIOLATED, Check
 from ..loader import AnalysisError, ancestors, parent
 from ..program import NotConst
 from ..recon import _own_nodes
-from ..rulelib import conds_sym, field_map, fld, inst_attr, insts_in_func, reach_table
+from ..rulelib import eval_conds, conds_sym, field_map, fld, inst_attr, insts_in_func, reach_table
 
 LEVEL = "proof"
 TECHNIQUE = ("static analysis: accepted-set computation of guards by evaluating their reconstructed condition terms on region "
@@ -459,25 +459,39 @@ def run(chk: Check):
     g.decide({"m": ("field", ("EnvelopeFileHeader", 0))}, [({"m": Me}, "accept")] + [({"m": v}, "reject") for v in byteflips(Me) + [b"", Me[:8]]], what="{b'DataTransformEnvelope'}")
     g = Gate(chk, "envelope:version", rel, "Envelope.__init__")
     g.decide({"v": ("field", ("EnvelopeFileHeader", 508))}, [({"v": v}, "accept" if v == 2 else "reject") for v in (0, 1, 2, 3, 4, 0x102, 0xFFFFFFFF)], what="{2}")
-    # required attributes: the loop over a literal tuple
+    # required attributes: some raise is guarded by "<name> not in <attributes>" with <name> running over a constant
+    # collection of names (a loop variable, or the variable of a generator searched with next())
     reqs = None
-    for n in _own_nodes(ectx.func):
-        if isinstance(n, ast.For):
-            try:
-                seq = chk.prog.fold(n.iter, ectx.mi, ectx.ci)
-            except NotConst:
-                continue
-            has_raise = any(isinstance(x, ast.Raise) for x in ast.walk(n))
-            if has_raise and all(isinstance(s, str) for s in seq):
-                reqs = (n, set(seq))
+    for r_ in [x for x in _own_nodes(ectx.func) if isinstance(x, ast.Raise)]:
+        for c, p in conds_sym(chk, ectx, r_):
+            for x in S.walk(c):
+                if isinstance(x, tuple) and x and x[0] == "cmp" and x[1] in ("notin", "in") and x[2][0] == "iter":
+                    seq = x[2][1]
+                    vals = list(seq[1]) if S.is_const(seq) and isinstance(seq[1], (tuple, list)) else \
+                        [a_[1] for a_ in seq[1]] if seq[0] in ("tuple", "list") and all(S.is_const(a_) for a_ in seq[1]) else None
+                    if vals and all(isinstance(v, str) for v in vals):
+                        reqs = (toplevel_stmt(r_, ectx.func), set(vals), r_)
     wantreq = {"vmware.keyInfo", "vmware.cipherName", "vmware.keyHash"}
     if reqs is None:
         chk.violated("K-GATE", "envelope:required-attributes", ectx.func, "required attributes are not checked")
     else:
-        n, seq = reqs
-        r = [x for x in ast.walk(n) if isinstance(x, ast.Raise)][0]
+        n, seq, r = reqs
         conds = conds_sym(chk, ectx, r)
-        notin = any(c[0][0] == "cmp" and c[0][1] == "notin" and c[1] is True or (c[0][0] == "cmp" and c[0][1] == "in" and c[1] is False) for c in conds)
+        # the raise is reached exactly when a required name is missing: evaluate with the membership test forced either way
+        mem = [x for c, p in conds for x in S.walk(c) if isinstance(x, tuple) and x and x[0] == "cmp" and x[1] in ("notin", "in") and x[2][0] == "iter"]
+        notin = False
+        if mem:
+            m0 = mem[0]
+            rel_c = [(c, p) for c, p in conds if S.contains(c, lambda y: y == m0)]
+            missing = eval_conds(rel_c, S.Valuation(1, override={m0: m0[1] == "notin"}))
+            present = eval_conds(rel_c, S.Valuation(1, override={m0: m0[1] != "notin"}))
+            # (a generator searched with next(): its value is the missing name or None - force that too)
+            for c, p in rel_c:
+                for y in S.walk(c):
+                    if isinstance(y, tuple) and y and y[0] == "call" and y[1] == "next" and S.contains(y, lambda z: z == m0):
+                        missing = eval_conds(rel_c, S.Valuation(1, override={y: "vmware.keyInfo"}))
+                        present = eval_conds(rel_c, S.Valuation(1, override={y: None}))
+            notin = bool(missing) and not present
         node = ectx.cfg.node_of.get(n)
         chk.decide(seq >= wantreq and notin and node is not None and ectx.cfg.dominates(node, ectx.cfg.exit) and not in_try(r, ectx.func),
                    "K-GATE", "envelope:required-attributes", n, f"each of {sorted(wantreq)} must be present (loop dominates the exit)",
